@@ -30,9 +30,15 @@ EXPRESSION GRAMMAR (both files)
         | self.<one of the nine properties>         -> call of the generated function
         | self.v_array                               -> v   (body of the v_array property is template-checked)
         | self.calculator.elast_data.cellmass        -> cellmass
-        | scipy.constants.physical_constants["Avogadro constant"][0]   -> N_A  (exact key text)
-        | units.Quantity(e, units.rydberg).to(units.kg * units.km ** 2 / units.s ** 2).magnitude
-                                                     -> e * ry   (exact unit text; also inside a helper)
+        | scipy.constants.physical_constants["Avogadro constant"][0] | scipy.constants.Avogadro   -> N_A
+                                       (exact texts; tools/props/vrh_static.py checks on every run that the constant
+                                       named has, in the installed scipy, exactly the value of the model's N_A)
+        | units.Quantity(e, U1).to(U2).magnitude     -> e * ry   (also inside a helper) where U1, U2 are unit expressions
+                                       built from units.<name>, unit-valued locals (`u = units.km / units.s`), * / and
+                                       ** <int literal>, whose normal forms in the free abelian group on the unit NAMES
+                                       are rydberg and kg km^2 s^-2 (no numeric factors, no other unit names; pint's
+                                       Unit algebra adds exponents).  Re-checked per run with the real pint registry:
+                                       same Unit objects and same conversion factor as the reference spelling.
   static.py only
         | A[:, I, J]           A a tracked array (or a helper parameter bound to one), I J int literals (or helper
                                parameters bound to int literals)
@@ -41,11 +47,16 @@ EXPRESSION GRAMMAR (both files)
 
 STATEMENT GRAMMAR
   a translated property:  [docstring]  (name = e | n1, n2 = e1, e2)*  return e      exactly @property, args (self)
-  __getattr__:            res = re.search(REGEX_CIJ, name);  if res: S*;  raise AttributeError(..)
-        S ::= if C: S* [else: S*] | key = c_(res.group(2)) | raise AttributeError(..)
+  __getattr__:            res = re.search(REGEX_CIJ, name);  S*      (every path must end in return / raise)
+        S ::= if C: S* [else: S*] | key = c_(G2) | raise AttributeError(..)
+            | a, b, c = res.groups() | x = res.group(N)              (names of the groups, single assignment)
             | return self.calculator.{modulus_adiabatic|modulus_isothermal|_compliances}[key]
-        C ::= res.group(N) ==|!= "lit" | key [not] in self.calculator.modulus_keys
-            | key [not] in self.calculator._compliances[.keys()]
+        C ::= res | not res | res is None | res is not None
+            | G ==|!= "lit"      G = res.group(1|3) or a name bound to group 1|3
+            | key [not] in self.calculator.modulus_keys | key [not] in self.calculator._compliances[.keys()]
+        An `if` is translated as (then ++ rest) / (else ++ rest), so facts flow along each path: groups may be read
+        only where the match is known to have succeeded, `key` only after it is bound on that path.  The tie lemma is
+        stated for group 1 in {"c", "s"}, justified by the regex TEXT starting with ^(c|s) (checked, and a Coq lemma).
   static.py, from the `if input02:` block that binds `cij` to the end of main():
         cij = numpy.zeros((df.shape[0], 6, 6))
         FILL LOOP  `for i, j in itertools.product(range(6), range(6)):` or `for i in range(6): for j in range(6):` with body
@@ -57,7 +68,11 @@ STATEMENT GRAMMAR
         df.loc[:, K] = e | df[K] = e                   column store (each store is a new SSA definition)
         name = e | n1, n2 = e1, e2                     scalar locals; a local bound to a BARE column read is invalidated
                                                        when that column is stored to afterwards (possible pandas view)
-        for name in ("a", "b", ..): S*                 literal tuple/list of strings: unrolled in order
+        for x in ("a", "b", ..): S*  |  for x, f in (("a", fa), ("b", fb), ..): S*
+                                                       LITERAL tuple/list of strings or of same-shape tuples of strings and
+                                                       plain function names: unrolled in order; x only as a column name,
+                                                       f only as the function of a call
+        df[X] = _to_Y(df[X][.to_numpy()])              on a column X the blocks neither define nor read: skipped
         if 'density' in df.columns: (stores to density)*     |  later `if input02:` blocks
         tail: df[X] = _to_Y(df[X]...) on untracked columns, the literal sampling `if`, sys.stdout.write(df.to_string())
 
@@ -98,6 +113,9 @@ PROPS9 = ["bulk_modulus_voigt", "bulk_modulus_reuss", "bulk_modulus_voigt_reuss_
 UNIT_TO = "units.kg * units.km ** 2 / units.s ** 2"
 UNIT_FROM = "units.rydberg"
 AVOGADRO = "scipy.constants.physical_constants['Avogadro constant'][0]"
+AVOGADRO_ATTR = "scipy.constants.Avogadro"      # same CODATA value; accepted because the value is re-checked per run
+UNIT_FROM_NF = {"rydberg": 1}
+UNIT_TO_NF = {"kg": 1, "km": 2, "s": -2}
 CELLMASS = "self.calculator.elast_data.cellmass"
 V_ARRAY_BODY = ["return self.calculator.qha_calculator.volume_base.v_array"]
 DICTS = {"modulus_adiabatic": "Adiabatic", "modulus_isothermal": "Isothermal", "_compliances": "Compliance"}
@@ -178,6 +196,8 @@ class Expr:
         self.locals = {}            # python name -> coq term
         self.intvars = {}           # python name -> int   (helper parameter bound to an int literal)
         self.arrvars = {}           # python name -> array state (helper parameter bound to a tracked array)
+        self.unitvars = {}          # python name -> normal form of a pint unit expression (calculator.py)
+        self.unittrees = {}
         if root is None:
             self.counter = 0
 
@@ -282,17 +302,26 @@ class Expr:
             self.bail(stmt, "statement `%s` (only `name = expression` or `n1, n2 = e1, e2`)" % src_of(stmt)[:120])
         names = [t.id for t, _ in pairs]
         for name in names:
-            if name in self.locals or name in self.intvars or name in self.arrvars or names.count(name) > 1:
+            if name in self.locals or name in self.intvars or name in self.arrvars or name in self.unitvars \
+                    or names.count(name) > 1:
                 self.bail(stmt, "name `%s` is assigned twice (locals and parameters are single-assignment)" % name)
             if name in self.RESERVED or self.is_reserved(name):
                 self.bail(stmt, "assignment to the reserved name `%s`" % name)
             if not re.fullmatch(IDENT, name):
                 self.bail(stmt, "local name `%s`" % name)
-        terms = [self.tr(v) for _, v in pairs]
+        special = [self.bind_special(v) for _, v in pairs]
+        terms = [None if sp is not None else self.tr(v) for sp, (_, v) in zip(special, pairs)]
         out = []
-        for (t, v), term in zip(pairs, terms):
-            out.append((t.id, prefix + t.id, term, v))
+        for (t, v), term, sp in zip(pairs, terms, special):
+            if sp is not None:
+                sp(t.id)               # a non-numeric local (unit expression): registered, nothing emitted
+            else:
+                out.append((t.id, prefix + t.id, term, v))
         return out
+
+    def bind_special(self, value):
+        """None, or a function registering the name for a right-hand side that is not a number"""
+        return None
 
     def is_reserved(self, name):
         return False
@@ -467,13 +496,25 @@ class Dispatch:
                 or fn.decorator_list:
             raise TranslateError(file, fn, "__getattr__ signature/decorators (expected plain (self, name))")
         b = body_no_doc(fn)
-        if len(b) != 3 or src_of(b[0]) != "res = re.search(REGEX_CIJ, name)" \
-                or not (isinstance(b[1], ast.If) and src_of(b[1].test) == "res" and not b[1].orelse) \
-                or not self.is_raise(b[2]):
+        if not b or src_of(b[0]) != "res = re.search(REGEX_CIJ, name)":
             raise TranslateError(file, b[0] if b else fn,
-                                 "__getattr__ skeleton (expected `res = re.search(REGEX_CIJ, name)`; `if res: ...`; "
-                                 "`raise AttributeError(name)`)")
-        self.tree = ("if", ("matched",), self.stmts(b[1].body, ("raise",), False), ("raise",))
+                                 "__getattr__ does not start with `res = re.search(REGEX_CIJ, name)`")
+        if re.compile(regex).groups != 3:
+            raise TranslateError(file, fn, "REGEX_CIJ does not have exactly three groups")
+        # group 1 is the first parenthesis of the text: if the text starts with ^(c|s) it can only capture "c" or "s"
+        self.group1_c_or_s = bool(re.match(r"\^\((c\|s|s\|c)\)", regex))
+        for n in ast.walk(fn):
+            if isinstance(n, (ast.FunctionDef, ast.Lambda, ast.Global, ast.Nonlocal, ast.Yield, ast.YieldFrom,
+                              ast.Try, ast.With, ast.While, ast.For)) and n is not fn:
+                raise TranslateError(file, n, "__getattr__ contains %s" % type(n).__name__)
+        self.tree = self.stmts(b[1:], dict(matched=None, keydef=False, names={}))
+        if self.has_leaf(self.tree, "fall"):
+            raise TranslateError(file, fn, "__getattr__ can reach its end without return/raise (would return None)")
+
+    def has_leaf(self, t, kind):
+        if t[0] == "if":
+            return self.has_leaf(t[2], kind) or self.has_leaf(t[3], kind)
+        return t[0] == kind
 
     @staticmethod
     def is_raise(s):
@@ -482,44 +523,97 @@ class Dispatch:
             (isinstance(s.exc, ast.Call) and src_of(s.exc.func) == "AttributeError"
              and not s.exc.keywords and all(isinstance(x, (ast.Name, ast.Constant)) for x in s.exc.args)))
 
-    def stmts(self, ss, k, keydef):
+    def err(self, node, what):
+        raise TranslateError(self.file, node, "__getattr__: " + what)
+
+    def group_of(self, e, env):
+        """e denotes res.group(n): returns n (the match must be known to have succeeded on this path)"""
+        m = re.fullmatch(r"res\.group\((\d+)\)", src_of(e))
+        if m and 1 <= int(m.group(1)) <= 3:
+            if env["matched"] is not True:
+                self.err(e, "`%s` on a path where the match is not known to have succeeded" % src_of(e))
+            return int(m.group(1))
+        if isinstance(e, ast.Name) and e.id in env["names"]:
+            return env["names"][e.id]
+        return None
+
+    def stmts(self, ss, env):
+        """statement list = its first statement followed by the rest; an `if` is translated as
+        (then-branch ++ rest) / (else-branch ++ rest), so what is known on each path (match succeeded, key bound,
+        names of the groups) flows exactly along that path; statements after a return/raise are unreachable."""
         if not ss:
-            return k
+            return ("fall",)
         s, rest = ss[0], ss[1:]
         if isinstance(s, ast.If):
-            after = self.stmts(rest, k, keydef)
-            return ("if", self.cond(s.test, keydef), self.stmts(s.body, after, keydef),
-                    self.stmts(s.orelse, after, keydef))
-        if isinstance(s, ast.Assign):
-            if src_of(s) != "key = c_(res.group(2))":
-                raise TranslateError(self.file, s, "__getattr__: assignment `%s` (only `key = c_(res.group(2))`)" % src_of(s)[:80])
-            return self.stmts(rest, k, True)
+            c, et, ef = self.cond(s.test, env)
+            tt = self.stmts(list(s.body) + rest, et)
+            ft = self.stmts(list(s.orelse) + rest, ef)
+            if c[0] == "matched":
+                if env["matched"] is True:
+                    return ft if c[1] else tt
+                if env["matched"] is False:
+                    return tt if c[1] else ft
+                return ("if", ("matched",), ft, tt) if c[1] else ("if", ("matched",), tt, ft)
+            return ("if", c, tt, ft)
+        if isinstance(s, ast.Assign) and len(s.targets) == 1:
+            tgt, val = s.targets[0], s.value
+            env2 = dict(env, names=dict(env["names"]))
+
+            def fresh(nm):
+                if nm in env["names"] or nm in ("res", "key", "self", "name", "c_", "re", "REGEX_CIJ"):
+                    self.err(s, "`%s` is assigned twice / is a reserved name" % nm)
+            if isinstance(tgt, ast.Name) and tgt.id == "key":
+                if env["keydef"]:
+                    self.err(s, "`key` is assigned twice on one path")
+                if not (isinstance(val, ast.Call) and src_of(val.func) == "c_" and len(val.args) == 1 and not val.keywords
+                        and self.group_of(val.args[0], env) == 2):
+                    self.err(s, "assignment `%s` (only `key = c_(<group 2>)`)" % src_of(s)[:80])
+                env2["keydef"] = True
+                return self.stmts(rest, env2)
+            if isinstance(tgt, ast.Tuple) and src_of(val) == "res.groups()" and len(tgt.elts) == 3 and \
+                    all(isinstance(x, ast.Name) for x in tgt.elts) and len({x.id for x in tgt.elts}) == 3:
+                if env["matched"] is not True:
+                    self.err(s, "`res.groups()` on a path where the match is not known to have succeeded")
+                for k, x in enumerate(tgt.elts):
+                    fresh(x.id)
+                    env2["names"][x.id] = k + 1
+                return self.stmts(rest, env2)
+            if isinstance(tgt, ast.Name) and self.group_of(val, env) is not None and not isinstance(val, ast.Name):
+                fresh(tgt.id)
+                env2["names"][tgt.id] = self.group_of(val, env)
+                return self.stmts(rest, env2)
+            self.err(s, "assignment `%s` (only `key = c_(<group 2>)`, `a, b, c = res.groups()`, `x = res.group(n)`)" % src_of(s)[:80])
         if self.is_raise(s):
             return ("raise",)
         if isinstance(s, ast.Return):
             t = src_of(s.value) if s.value is not None else ""
             m = re.fullmatch(r"self\.calculator\.(\w+)\[key\]", t)
-            if not m or m.group(1) not in DICTS or not keydef:
-                raise TranslateError(self.file, s, "__getattr__: `%s` (only `return self.calculator.<modulus_adiabatic|"
-                                                   "modulus_isothermal|_compliances>[key]` after key is bound)" % src_of(s)[:80])
+            if not m or m.group(1) not in DICTS or not env["keydef"]:
+                self.err(s, "`%s` (only `return self.calculator.<modulus_adiabatic|modulus_isothermal|_compliances>[key]` "
+                            "after key is bound)" % src_of(s)[:80])
             return ("read", DICTS[m.group(1)])
-        raise TranslateError(self.file, s, "__getattr__: statement `%s`" % src_of(s)[:80])
+        self.err(s, "statement `%s`" % src_of(s)[:80])
 
-    def cond(self, t, keydef):
+    def cond(self, t, env):
+        """-> (condition, env on the true branch, env on the false branch)"""
+        ts = src_of(t)
+        if ts in ("res", "res is not None", "not res", "res is None"):
+            neg = ts in ("not res", "res is None")
+            et, ef = dict(env, matched=not neg), dict(env, matched=neg)
+            return ("matched", neg), et, ef
         if isinstance(t, ast.Compare) and len(t.ops) == 1:
-            l, op, r = src_of(t.left), t.ops[0], t.comparators[0]
-            m = re.fullmatch(r"res\.group\((\d+)\)", l)
-            if m and isinstance(op, (ast.Eq, ast.NotEq)) and isinstance(r, ast.Constant) and isinstance(r.value, str) \
-                    and int(m.group(1)) in (1, 3):
+            op, r = t.ops[0], t.comparators[0]
+            g = self.group_of(t.left, env)
+            if g in (1, 3) and isinstance(op, (ast.Eq, ast.NotEq)) and isinstance(r, ast.Constant) and isinstance(r.value, str):
                 coq_str(r.value)
-                return ("grp", int(m.group(1)), r.value, isinstance(op, ast.NotEq))
-            if l == "key" and keydef and isinstance(op, (ast.In, ast.NotIn)):
+                return ("grp", g, r.value, isinstance(op, ast.NotEq)), env, env
+            if src_of(t.left) == "key" and env["keydef"] and isinstance(op, (ast.In, ast.NotIn)):
                 rs = src_of(r)
                 if rs == "self.calculator.modulus_keys":
-                    return ("inmod", isinstance(op, ast.NotIn))
+                    return ("inmod", isinstance(op, ast.NotIn)), env, env
                 if rs in ("self.calculator._compliances.keys()", "self.calculator._compliances"):
-                    return ("incompl", isinstance(op, ast.NotIn))
-        raise TranslateError(self.file, t, "__getattr__: condition `%s`" % src_of(t)[:100])
+                    return ("incompl", isinstance(op, ast.NotIn)), env, env
+        self.err(t, "condition `%s`" % ts[:100])
 
     # -- python-side evaluation (to resolve the names used by the formulas) ---------------
     def run(self, tree, g, in_mod=True, in_compl=True):
@@ -576,6 +670,62 @@ class CalcExpr(Expr):
         self.mod = mod
         self.deps = set()
         self.names = {}      # attribute name -> (kind 'c'|'s', a, b, groups)
+        self.notes = {"consts": set(), "units": []}    # named constants / unit expressions relied upon (checked per run)
+
+    # ---- pint unit expressions: the free abelian group on the unit names -----------------------
+    def unit_nf(self, e):
+        """normal form {unit name: exponent} of an expression built from units.<name>, unit-valued locals, * / and
+        ** <int literal>; None if e is not such an expression"""
+        if isinstance(e, ast.Attribute) and isinstance(e.value, ast.Name) and e.value.id == "units" \
+                and re.fullmatch(r"[A-Za-z][A-Za-z0-9_]*", e.attr) and e.attr not in ("Quantity", "Unit", "Measurement"):
+            return {e.attr: 1}
+        if isinstance(e, ast.Name) and e.id in self.unitvars:
+            return dict(self.unitvars[e.id])
+        if isinstance(e, ast.BinOp) and isinstance(e.op, (ast.Mult, ast.Div)):
+            l, r = self.unit_nf(e.left), self.unit_nf(e.right)
+            if l is None or r is None:
+                return None
+            sgn = 1 if isinstance(e.op, ast.Mult) else -1
+            for k, v in r.items():
+                l[k] = l.get(k, 0) + sgn * v
+            return {k: v for k, v in l.items() if v != 0}
+        if isinstance(e, ast.BinOp) and isinstance(e.op, ast.Pow):
+            b = self.unit_nf(e.left)
+            x = e.right
+            n = None
+            if isinstance(x, ast.Constant) and type(x.value) is int:
+                n = x.value
+            elif isinstance(x, ast.UnaryOp) and isinstance(x.op, ast.USub) and isinstance(x.operand, ast.Constant) \
+                    and type(x.operand.value) is int:
+                n = -x.operand.value
+            if b is None or n is None:
+                return None
+            return {k: v * n for k, v in b.items() if v * n != 0}
+        return None
+
+    def unit_tree(self, e):
+        """the same expression as a nested tuple with unit-valued locals expanded (evaluated with the real pint
+        registry by the per-run check of tools/props/vrh_static.py); only called when unit_nf(e) is not None"""
+        if isinstance(e, ast.Attribute):
+            return ("u", e.attr)
+        if isinstance(e, ast.Name):
+            return self.unittrees[e.id]
+        if isinstance(e.op, ast.Pow):
+            x = e.right
+            n = x.value if isinstance(x, ast.Constant) else -x.operand.value
+            return ("pow", self.unit_tree(e.left), n)
+        return ("mul" if isinstance(e.op, ast.Mult) else "div", self.unit_tree(e.left), self.unit_tree(e.right))
+
+    def bind_special(self, value):
+        nf = self.unit_nf(value)
+        if nf is not None:
+            tree = self.unit_tree(value)
+
+            def reg(name):
+                self.unitvars[name] = nf
+                self.unittrees[name] = tree
+            return reg
+        return None
 
     def find_helper(self, name, node):
         """a module-level `def name(...)` that is the ONLY binding of `name` in the whole module"""
@@ -596,6 +746,9 @@ class CalcExpr(Expr):
             self.bail(e, "`%s` inside the helper `%s` (a helper sees only its parameters)" % (s[:100], self.stack[-1]))
         if s == CELLMASS:
             return "cellmass"
+        if s == AVOGADRO_ATTR:
+            self.notes["consts"].add(s)
+            return "N_A"
         if isinstance(e.value, ast.Name) and e.value.id == "self":
             a = e.attr
             if a in PROPS9:
@@ -635,14 +788,18 @@ class CalcExpr(Expr):
             ok = isinstance(q, ast.Call) and src_of(q.func) == "units.Quantity" and len(q.args) == 2 and not q.keywords
         if not ok:
             self.bail(e, "`%s` (only units.Quantity(e, %s).to(%s).magnitude)" % (src_of(e)[:120], UNIT_FROM, UNIT_TO))
-        if src_of(q.args[1]) != UNIT_FROM:
-            self.bail(q.args[1], "source unit `%s` (expected exactly `%s`)" % (src_of(q.args[1]), UNIT_FROM))
-        if src_of(c.args[0]) != UNIT_TO:
-            self.bail(c.args[0], "target unit `%s` (expected exactly `%s`)" % (src_of(c.args[0]), UNIT_TO))
+        src, dst = self.unit_nf(q.args[1]), self.unit_nf(c.args[0])
+        if src != UNIT_FROM_NF:
+            self.bail(q.args[1], "source unit `%s` (expected `%s` up to the group laws of units)" % (src_of(q.args[1]), UNIT_FROM))
+        if dst != UNIT_TO_NF:
+            self.bail(c.args[0], "target unit `%s`%s (expected `%s` up to the group laws of units)"
+                      % (src_of(c.args[0]), " = %s" % dst if dst is not None else "", UNIT_TO))
+        self.notes["units"].append((src_of(q.args[1]), src_of(c.args[0]), self.unit_tree(q.args[1]), self.unit_tree(c.args[0])))
         return "(%s * ry)" % self.tr(q.args[0])
 
     def subscript(self, e):
         if src_of(e) == AVOGADRO:
+            self.notes["consts"].add(AVOGADRO)
             return "N_A"
         self.bail(e, "subscript `%s` (only %s)" % (src_of(e)[:120], AVOGADRO))
 
@@ -655,6 +812,8 @@ class CalcResult:
         self.names = {}       # used accessor names
         self.dispatch = None
         self.pressure = None  # list of (name, target, through_v2p)
+        self.consts = set()   # source text of the named constants read as N_A
+        self.units = []       # (source unit text, target unit text) of the accepted conversions
         self.order = []
 
     def usable(self, name, _seen=()):
@@ -749,6 +908,8 @@ def translate_calculator(source, util_init_src=None, voigt_src=None):
             res.defs[name] = txt
             res.deps[name] = set(ex.deps)
             res.names.update(ex.names)
+            res.consts |= ex.notes["consts"]
+            res.units += [u for u in ex.notes["units"] if u not in res.units]
         except TranslateError as e:
             res.errors[name] = e
     # topological order
@@ -852,6 +1013,8 @@ def emit_calculator(res: CalcResult, want_getattr=True) -> str:
         out.append("Definition g_getattr (matched : bool) (g1 g3 : option string) (key : Z * Z) (in_mod in_compl : bool)"
                    " : outcome :=\n  %s.\n" % res.dispatch.coq())
         out.append("Definition g_regex : string := %s.\n" % coq_str(res.dispatch.regex))
+        out.append("(* the text of REGEX_CIJ starts with ^(c|s): its group 1 can only capture c or s *)")
+        out.append("Definition g_regex_group1_is_c_or_s : bool := %s.\n" % ("true" if res.dispatch.group1_c_or_s else "false"))
         rows = []
         for a in sorted(res.names):
             kind, lo, hi, g = res.names[a]
@@ -911,7 +1074,7 @@ class StaticExpr(Expr):
         self.t = tr
 
     def is_reserved(self, name):
-        return not self.in_helper and (name in self.t.arrays or name in self.t.strvars)
+        return not self.in_helper and (name in self.t.arrays or name in self.t.strvars or name in self.t.funvars)
 
     def unknown_name(self, name):
         if not self.in_helper and name in self.t.poisoned:
@@ -952,6 +1115,7 @@ class StaticExpr(Expr):
         f = src_of(e.func)
         if self.in_helper:
             self.bail(e, "call `%s` inside the helper `%s`" % (src_of(e)[:100], self.stack[-1]))
+        f = self.t.funvars.get(f, f)
         if f in STATIC_UNIT_FUNS and len(e.args) == 1 and not e.keywords:
             return "(%s %s)" % (STATIC_UNIT_FUNS[f], self.tr(e.args[0]))
         if isinstance(e.func, ast.Attribute) and e.func.attr == "to_numpy" and not e.args and not e.keywords:
@@ -1013,6 +1177,7 @@ class StaticTr:
         self.inverse_of = None
         self.fill_keys = None  # [(i, j, a, b)]: cell (i, j) (1-based) is filled from column 'c<a><b>'
         self.strvars = {}      # loop variable of an unrolled loop -> its current string
+        self.funvars = {}      # loop variable of an unrolled loop -> the function NAME it currently stands for
         self.alias_of = {}     # local -> column it was bound to by a bare column read
         self.poisoned = {}
         self.ex = StaticExpr(source, self)
@@ -1082,6 +1247,8 @@ class StaticTr:
             tgt = s.targets[0]
             col = self.column_ref(tgt)
             if col is not None:
+                if self.untracked_conversion(col, s.value):
+                    return
                 self.store_col(col, self.ex.tr(s.value), s)
                 return
             if isinstance(tgt, ast.Tuple):
@@ -1142,26 +1309,69 @@ class StaticTr:
             return
         self.bail(s, "statement `%s`" % t[:100].replace("\n", " | "))
 
-    def unrolled(self, s):
-        """`for name in ("a", "b", ..): body` over a literal tuple/list of strings: the body is translated once per
-        element, in order, with `name` standing for that string inside df[name] / df.loc[:, name]"""
-        if not (isinstance(s.iter, (ast.Tuple, ast.List)) and s.iter.elts and
-                all(isinstance(x, ast.Constant) and isinstance(x.value, str) for x in s.iter.elts)):
+    def untracked_conversion(self, col, v):
+        """df[X] = _to_Y(df[X][.to_numpy()]) on a column X the translated blocks neither define nor have read: a unit
+        conversion of that column only (V, F, P) - nothing to translate"""
+        if col in self.cols or col in self.alias_of.values() or col in self.version:
             return False
-        if s.orelse or not isinstance(s.target, ast.Name):
-            self.bail(s, "loop over a literal tuple with an else clause or a non-name target")
-        var = s.target.id
-        if var in self.ex.locals or var in self.arrays or var in self.strvars or var in Expr.RESERVED or var in self.poisoned:
-            self.bail(s, "loop variable `%s` shadows a tracked name" % var)
+        if isinstance(v, ast.Call) and isinstance(v.func, ast.Name) and len(v.args) == 1 and not v.keywords:
+            f = self.funvars.get(v.func.id, v.func.id)
+            if v.func.id in self.ex.locals or not re.fullmatch(r"_to_\w+", f):
+                return False
+            return self.bare_column(v.args[0]) == col
+        return False
+
+    def unrolled(self, s):
+        """`for x in ("a", "b", ..): body`  or  `for x, f in (("a", fa), ("b", fb), ..): body` over a LITERAL tuple/list
+        whose items are strings or same-length tuples of strings and plain function names: the body is translated once
+        per item, in order; a string variable may only be used as the column in df[x] / df.loc[:, x], a function
+        variable only as the function of a call f(..)"""
+        if not (isinstance(s.iter, (ast.Tuple, ast.List)) and s.iter.elts):
+            return False
+
+        def item(x):
+            if isinstance(x, ast.Constant) and isinstance(x.value, str):
+                return [("s", x.value)]
+            if isinstance(x, ast.Tuple) and x.elts and all(
+                    (isinstance(y, ast.Constant) and isinstance(y.value, str)) or
+                    (isinstance(y, ast.Name) and isinstance(y.ctx, ast.Load)) for y in x.elts):
+                return [("s", y.value) if isinstance(y, ast.Constant) else ("f", y.id) for y in x.elts]
+            return None
+        items = [item(x) for x in s.iter.elts]
+        if any(i is None for i in items):
+            return False
+        single = all(isinstance(x, ast.Constant) for x in s.iter.elts)
+        if single:
+            tvars = [s.target.id] if isinstance(s.target, ast.Name) else None
+        else:
+            tvars = [t.id for t in s.target.elts] if isinstance(s.target, ast.Tuple) and \
+                all(isinstance(t, ast.Name) for t in s.target.elts) else None
+        kinds = [tuple(k for k, _ in it) for it in items]
+        if s.orelse or tvars is None or len(set(tvars)) != len(tvars) or any(len(it) != len(tvars) for it in items) \
+                or len(set(kinds)) != 1 or (not single and any(isinstance(x, ast.Constant) for x in s.iter.elts)):
+            self.bail(s, "loop over a literal tuple: else clause, or the target does not match the items")
+        for var in tvars:
+            if var in self.ex.locals or var in self.arrays or var in self.strvars or var in self.funvars \
+                    or var in Expr.RESERVED or var in self.poisoned or var in STATIC_UNIT_FUNS:
+                self.bail(s, "loop variable `%s` shadows a tracked name" % var)
+        for it in items:
+            for k, val in it:
+                if k == "f" and (val in tvars or val in self.ex.locals or val in self.arrays or val in self.strvars
+                                 or val in self.funvars or not re.fullmatch(IDENT, val)):
+                    self.bail(s, "item `%s` of the literal tuple is not a plain function name" % val)
         for n in ast.walk(s):
             if isinstance(n, (ast.Break, ast.Continue, ast.Return)):
                 self.bail(n, "%s inside an unrolled loop" % type(n).__name__)
-            if isinstance(n, ast.Name) and n.id == var and isinstance(n.ctx, (ast.Store, ast.Del)) and n is not s.target:
-                self.bail(n, "loop variable `%s` is assigned inside the loop" % var)
-        for x in s.iter.elts:
-            self.strvars[var] = x.value
+            if isinstance(n, ast.Name) and n.id in tvars and isinstance(n.ctx, (ast.Store, ast.Del)) and \
+                    not any(n is t for t in ast.walk(s.target)):
+                self.bail(n, "loop variable `%s` is assigned inside the loop" % n.id)
+        for it in items:
+            for var, (k, val) in zip(tvars, it):
+                (self.strvars if k == "s" else self.funvars)[var] = val
             self.block(s.body)
-        del self.strvars[var]
+        for var in tvars:
+            self.strvars.pop(var, None)
+            self.funvars.pop(var, None)
         self.facts.append("loop over the literal %s unrolled" % src_of(s.iter))
         return True
 
@@ -1292,16 +1502,6 @@ def translate_static(source):
         if t == STATIC_SAMPLING or (t == STATIC_PRINT and have.get("sys")):
             tr.facts.append("tail statement matched literally: " + t.split("\n")[0])
             continue
-        # df['X'] = _to_Y(df['X'].to_numpy()) on an untracked column: a unit conversion of that column only
-        if isinstance(s, ast.Assign) and len(s.targets) == 1:
-            col = tr.column_ref(s.targets[0])
-            if col is not None and col not in tr.cols and col not in tr.alias_of.values():
-                v = s.value
-                if isinstance(v, ast.Call) and isinstance(v.func, ast.Name) and re.fullmatch(r"_to_\w+", v.func.id) \
-                        and len(v.args) == 1 and not v.keywords and src_of(v.args[0]) in (
-                            "df['%s'].to_numpy()" % col, "df.loc[:, '%s'].to_numpy()" % col, "df['%s']" % col,
-                            "df.loc[:, '%s']" % col):
-                    continue
         tr.stmt(s)
     missing = [c for c in ST_COLS if c not in tr.version]
     if missing:
